@@ -98,6 +98,14 @@ def state_rules(P, R, prop):
                        "order of the underlying sequence (%s)" % (f.path, name, meth, ctx, name, what), loc="%s:%d" % (f.file, line))
     if not hits:
         R.holds(rule, "iter-resume:none", "no short-circuiting consumer is re-applied to an iterator that outlives the repeated context it runs in")
+    # positive control: the detector must fire on engine/selfcheck (closure form and loop form) and stay silent on the fresh-iterator twin
+    import harness
+    from facts import Program
+    SC = Program(harness.selfcheck_facts())
+    got = {f.name: [h[0] for h in iterresume.scan(f.raw)] for f in SC.fns.values() if f.name.startswith("iter_")}
+    want = {"iter_resumed_in_closure": ["hay"], "iter_resumed_in_loop": ["it"], "iter_fresh_each_time": []}
+    R.check(rule, "iter-resume:control", all(got.get(k) == v for k, v in want.items()), "iter-resume controls classified as expected (2 fire, 1 silent)",
+            "self-check: the iter-resume detector returns %r on the control crate (expected %r): the rule cannot be trusted" % (got, want))
     memo_rule(P, R, rule, prefixes, what, allow)
     holders = global_state_holders(P)
     new = {h: v for h, v in holders.items() if _reviewed_holder(h, v[0]) is None}
